@@ -2399,7 +2399,7 @@ next_cand:
   }
 
   if (agent->discovery_timer_source == NULL && !upnp_running &&
-      !dns_resolution_ongoing)
+      !dns_resolution_ongoing && agent->stun_resolving_list == NULL)
     agent_signal_gathering_done (agent);
 }
 
@@ -2739,7 +2739,10 @@ stun_server_resolved_cb (GObject *src, GAsyncResult *result,
     g_warning ("Agent: %p: s:%d: Can't resolve STUN server: %s", agent,
         stream_id, error->message);
     g_clear_error (&error);
-    goto done;
+    /* Nothing will be discovered through this server, the gathering may
+     * be complete now. */
+    agent_lock (agent);
+    goto finish;
   }
 
   agent_lock (agent);
@@ -2811,6 +2814,7 @@ stun_server_resolved_cb (GObject *src, GAsyncResult *result,
     }
   }
 
+ finish:
   if (agent->discovery_unsched_items)
     discovery_schedule (agent);
   else
@@ -3079,7 +3083,9 @@ turn_server_resolved_cb (GObject *src, GAsyncResult *result,
         error->message);
     g_clear_error (&error);
     turn->resolution_failed = TRUE;
-    goto done;
+    /* Nothing will be discovered through this server, the gathering may
+     * be complete now. */
+    goto finish;
   }
 
   for (item = addresses; item; item = item->next) {
@@ -3146,6 +3152,7 @@ turn_server_resolved_cb (GObject *src, GAsyncResult *result,
     }
   }
 
+ finish:
   if (agent->discovery_unsched_items)
     discovery_schedule (agent);
   else
